@@ -1,6 +1,6 @@
 \* C01 leg A quick: 2 replicas, all subsets of a 5-point grid (1 024 layouts + 32 identical-replica
 \* layouts), InitPen 5 (x1000 ms); per layout one reader from the start and every reader that mixes
-\* Next with at most one Seek(x) (4 targets) at any position (seek-first included).
+\* Next with at most one Seek(x) (3 targets) at any position (seek-first included).
 \* StepwiseEqualsFunctional / OnlyDoneIsFinal are checked in the thorough tier (cost).
 SPECIFICATION Spec
 CONSTANTS InitPen = 5
@@ -10,7 +10,7 @@ CONSTANTS InitPen = 5
           Ctr = FALSE
           Starts = {0}
           Incs = {0}
-          Targets = {0, 6, 12, 18}
+          Targets = {0, 6, 18}
           EmitMod = 1
           MaxSeeks = 1
           Kinds = {"f"}
